@@ -376,10 +376,21 @@ func Check[C any](t *testing.T, prop string, gen func(*rapid.T) C, run func(C, *
 // that starves its heartbeats - drops or aborts requests; availability is not what any of the properties states)
 var timeoutRE = regexp.MustCompile(`context deadline exceeded|DeadlineExceeded|i/o timeout|: timeout$|: timeout\b|system is too busy|timeout waiting|request timed out|request dropped as the shard is not ready|request aborted|request canceled|request cancelled`)
 
+// transientSigs: further signatures (registered by a check's package) whose failures report the error of an engine call the check judges:
+// when that error is an expired deadline / a raft group without a leader, the call was not answered - the case cannot be judged.
+var transientSigs = map[string]bool{}
+
+// UnjudgedOnTimeout registers signatures (full, with the property prefix) to be treated like the "-error" kind by Check.
+func UnjudgedOnTimeout(sigs ...string) {
+	for _, s := range sigs {
+		transientSigs[s] = true
+	}
+}
+
 // timedOut: failures of the "-error" kind (an engine / RPC call the harness needed returned an error) whose first line shows that the
 // error is an expired deadline.
 func timedOut(f *Failure) bool {
-	if !strings.Contains(f.Signature, "-error") {
+	if !strings.Contains(f.Signature, "-error") && !transientSigs[f.Signature] {
 		return false
 	}
 	return timeoutRE.MatchString(clip(strings.SplitN(f.Msg, "\n", 2)[0], 600))
